@@ -96,6 +96,26 @@ theorem removal_immediate (st : AuthState) (r : Role) (a : Addr) :
     simp only [mem_remove] at this
     exact absurd rfl this.1
 
+/-- the same with spellings: the table is keyed by the string it was given, the guard compares the
+    stored strings with the signer's canonical string `c`.  If every entry of role `r` that matches `c`
+    is spelled `raw` (one spelling per account — what the matrix generates), removing `(r, raw)`
+    makes the guard refuse `c`. -/
+theorem removal_immediate_spelled (st : AuthState) (r : Role) (raw c : Addr)
+    (h : ∀ a', (r, a') ∈ st.admin → a' = c → a' = raw) :
+    holds { st with admin := st.admin.remove (r, raw) } .admin r c = false := by
+  cases hh : holds { st with admin := st.admin.remove (r, raw) } .admin r c with
+  | false => rfl
+  | true =>
+    have hm := (holds_admin_iff _ r c).mp hh
+    simp only [mem_remove] at hm
+    have := h c hm.2 rfl
+    exact absurd (by rw [this]) hm.1
+
+/-- …and the quirk of the code as it is, as a decided witness: an entry granted in one spelling
+    survives a removal that names the account in another spelling (recorded under UNPROVED). -/
+example : holds ⟨(AdminTable.remove [("MARGIN", "sif1abc")] ("MARGIN", "SIF1ABC")), none, none⟩ .admin "MARGIN" "sif1abc" = true := by
+  decide
+
 /-- a removal touches nobody else -/
 theorem removal_exact (st : AuthState) (k : Role × Addr) (r : Role) (a : Addr) (hne : (r, a) ≠ k) :
     holds { st with admin := st.admin.remove k } .admin r a = holds st .admin r a := by
